@@ -44,7 +44,8 @@ DECLINE = (NotImplementedError, AssertionError, ValueError, TypeError, KeyError,
 POOL = ["i", "j", "k", "a", "b"]
 
 PY_HEADER = gen_terms.PY_HEADER + ("from funsor.terms import Subs, Binary\nfrom funsor.domains import Reals\nfrom funsor.cnf import Contraction\n"
-                                   "from funsor.interpretations import reflect, lazy, eager\n"
+                                   "from funsor.interpretations import reflect, lazy, eager, normalize\n"
+                                   "from funsor.optimizer import apply_optimizer\n"
                                    "from funsor.interpreter import reinterpret\n")
 
 
@@ -143,7 +144,10 @@ def describe2(r):
     return gen_terms.describe(r)
 
 
-INTERPS = {"eager": eager, "lazy": lazy, "reflect": reflect}
+from funsor.interpretations import normalize   # noqa: E402
+from funsor.optimizer import apply_optimizer   # noqa: E402
+
+INTERPS = {"eager": eager, "lazy": lazy, "reflect": reflect, "normalize": normalize}
 
 
 def _tolerant_alpha_convert(self, alpha_subs):
@@ -837,10 +841,12 @@ def run_s2(ctx, n, use_lean=True, cases=None):
         if int(np.prod([s for _, s in ins] or [1])) > 400:
             ctx.count("S2:too-big")
             continue
-        interp = interp_given if given is not None else rng.choice(["eager", "eager", "lazy", "reflect"])
+        interp = interp_given if given is not None else rng.choice(["eager", "eager", "lazy", "reflect", "normalize"])
         # (both reinterpreters = both settings of FUNSOR_USE_TCO, which only selects between these two functions)
-        mode = {"eager": "call", "lazy": rng.choice(["call", "call-under-lazy"]),
-                "reflect": rng.choice(["Subs+stack_reinterpret", "Subs+recursion_reinterpret"])}[interp]
+        mode = {"eager": "call", "lazy": rng.choice(["call", "call-under-lazy", "call-under-normalize"]),
+                "reflect": rng.choice(["Subs+stack_reinterpret", "Subs+recursion_reinterpret", "Subs-reflect+apply_optimizer",
+                                       "call-under-normalize"]),
+                "normalize": rng.choice(["call-under-normalize", "call-under-normalize+reinterpret"])}[interp]
         if cat_capture_region(f_syn, sig_syn):
             # a value substituted below a lazily built Cat mentions the Cat's own name: funsor must decline
             # (Cat.__init__'s name-clash assertion, also made by the eager Cat rules since e7d35f5) or be right;
@@ -988,10 +994,24 @@ def s2_run_impl(recipe, sigma, foreign, interp, mode):
                     "Subs+recursion_reinterpret": recursion_reinterpret}[mode]
             with eager:
                 r = rein(s)
+        elif mode == "Subs-reflect+apply_optimizer":
+            with reflect:
+                vals = [(k, build2(v)) for k, v in sigma + foreign]
+                s = Subs(f, tuple(vals))
+            lazy_inputs = OrderedDict(s.inputs)
+            r = apply_optimizer(s)
         elif mode == "call-under-lazy":
             with lazy:
                 kw = {k: build2(v) for k, v in sigma + foreign}
                 r = f(**kw)
+        elif mode in ("call-under-normalize", "call-under-normalize+reinterpret"):
+            # the normalize rules for Subs (cnf.py: do_fresh_subs, distribute_subs_contraction, normalize_fuse_subs)
+            with normalize:
+                kw = {k: build2(v) for k, v in sigma + foreign}
+                r = f(**kw)
+            if mode.endswith("+reinterpret"):
+                with eager:
+                    r = reinterpret(r)
         else:
             kw = {k: build_under(interp if interp != "reflect" else "eager", v) for k, v in sigma + foreign}
             r = f(**kw)
@@ -1007,8 +1027,14 @@ def s2_python(recipe, sigma, foreign, interp, mode):
         src += ("from funsor.interpreter import stack_reinterpret, recursion_reinterpret\n"
                 f"def CALL():\n    with reflect:\n        s = Subs(f, tuple({{{sig}}}.items()))\n    print(s.inputs)\n"
                 f"    with eager:\n        return {mode[5:]}(s)\n")
+    elif mode == "Subs-reflect+apply_optimizer":
+        src += (f"def CALL():\n    with reflect:\n        s = Subs(f, tuple({{{sig}}}.items()))\n    print(s.inputs)\n"
+                "    return apply_optimizer(s)\n")
     elif mode == "call-under-lazy":
         src += f"def CALL():\n    with lazy:\n        return f(**{{{sig}}})\n"
+    elif mode.startswith("call-under-normalize"):
+        src += (f"def CALL():\n    with normalize:\n        r = f(**{{{sig}}})\n" +
+                ("    with eager:\n        r = reinterpret(r)\n" if mode.endswith("+reinterpret") else "") + "    return r\n")
     else:
         src += (f"def CALL():\n    with {interp if interp != 'reflect' else 'eager'}:\n        sigma = {{{sig}}}\n"
                 "    return f(**sigma)\n")
@@ -1180,10 +1206,20 @@ def s8_cases(rng, tier):
                     [("y", ("num", 0.5, "real")), ("i", ("num", 1, 3)), ("x", ("rvar", "y"))],
                     [("j", ("var", "q", 2)), ("x", ("rvar", "y")), ("y", ("num", -1.0, "real"))],
                 ]
-                for sig in rng.sample(sigmas, 3 if tier == "quick" else len(sigmas)):
+                # sigma naming BOTH the node's fresh name (Stack's / Cat's own input) and inputs of its sub-terms
+                if cls != "contr":
+                    own, size = ("k", len(parts)) if cls == "stack" else ("c", sum(2 if p is a else 1 for p in parts))
+                    own_vals = [("num", rng.randrange(size), size), ("var", "m", size),
+                                gen_terms.gen_tensor(rng, OrderedDict(q=2), size, names=["q"])]
+                    if cls == "cat":
+                        own_vals.append(("slice", "m", 1, size, 1, size))
+                    for ov in own_vals:
+                        sigmas.append([(own, ov)] + rng.choice(sigmas[:8]))
+                    sigmas.append([(own, own_vals[0])])
+                for sig in rng.sample(sigmas, 4 if tier == "quick" else len(sigmas)):
                     sig = list(sig)
                     rng.shuffle(sig)
-                    out.append((f, sig, rng.choice(["lazy", "lazy", "reflect", "eager"])))
+                    out.append((f, sig, rng.choice(["lazy", "lazy", "reflect", "reflect", "eager", "normalize", "normalize"])))
     return out
 
 
